@@ -69,6 +69,7 @@ type Engine struct {
 	Axioms    []*AxiomInfo
 	Guards    []GuardInfo
 	GlobalInvs []*GlobalInv
+	Lemmas     map[string]*LemmaInfo
 	HeapSorts map[string]*smt.Sort
 	HeapGo    map[string]types.Type
 	typeTags  map[string]int
@@ -84,6 +85,11 @@ type Engine struct {
 
 type AxiomInfo struct {
 	*spec.Axiom
+	Pkg *types.Package
+}
+
+type LemmaInfo struct {
+	*spec.LemmaDef
 	Pkg *types.Package
 }
 
@@ -206,6 +212,12 @@ func Load(repo string, patterns []string, extraSpecs []string) (*Engine, error) 
 		}
 		for _, gi := range f.GlobalInvs {
 			e.GlobalInvs = append(e.GlobalInvs, &GlobalInv{Clause: gi, Pkg: pkg})
+		}
+		for _, ld := range f.Lemmas {
+			if e.Lemmas == nil {
+				e.Lemmas = map[string]*LemmaInfo{}
+			}
+			e.Lemmas[ld.Name] = &LemmaInfo{LemmaDef: ld, Pkg: pkg}
 		}
 	}
 	// pass 2: function contracts
@@ -752,6 +764,9 @@ func (e *Engine) boxHeap(t types.Type) (string, *smt.Sort) {
 
 func init() {
 	smt.GroundAxiomHook = func(t *smt.Term) []*smt.Term {
+		if t.Name == "typeof" {
+			return []*smt.Term{smt.Eq(TypeOf(IfaceNil), smt.IntC(0))}
+		}
 		if strings.HasPrefix(t.Name, "sub$") && len(t.Args) == 1 {
 			return []*smt.Term{smt.Neq(t, RefNil), smt.Eq(smt.App("parent$"+t.Name, smt.Ref, t), t.Args[0]),
 				smt.Eq(RootOf(t), RootOf(t.Args[0]))}
